@@ -51,7 +51,8 @@ def check(ctx):
     compact_as(ctx)
     fns = [b for b in q.fn_by_suffix(P, "quote::ToTokens>::to_tokens", "scale_typegen") if "derives::Derives as" in b["path"]]
     if len(fns) == 1:
-        SORT = "mut[Iterator::collect(HashSet::iter(P0.%s));.slice::sort_by(|2|{Ord::cmp(ToString::to_string(T[#0](C1_0)),ToString::to_string(T[#0](C1_1)))}) if Not(HashSet::is_empty(P0.%s))]"
+        # which sort is applied is C06's concern; here: the WHOLE set is emitted, in the derive / attribute position
+        SORT = "mut[Iterator::collect(HashSet::iter(P0.%s));.slice::sort" + ANY + " if Not(HashSet::is_empty(P0.%s))]"
         exp = ("{if(Not(HashSet::is_empty(P0.derives))){Extend::extend(P1,T[# [ derive ( #( #0 ),* ) ]](%s))}else{'()'};"
                "if(Not(HashSet::is_empty(P0.attributes))){Extend::extend(P1,T[#( #0 )*](%s))}else{'()'}}") % (SORT % ("derives", "derives"), SORT % ("attributes", "attributes"))
         expect_term(ctx, "C08.8", "derives-tokens", fns[0]["sp"], Norm(fns[0]).term(fns[0]["body"]), exp,
